@@ -11,11 +11,21 @@ import (
 	"strconv"
 
 	"vh/gen"
+	"vh/props"
 )
 
 func main() {
 	if os.Args[1] == "shrink" {
 		shrink(os.Args[2:])
+		return
+	}
+	if os.Args[1] == "forbid" {
+		n, _ := strconv.Atoi(os.Args[2])
+		os.MkdirAll(os.Args[3], 0o755)
+		r := rand.New(rand.NewSource(1))
+		for i := 0; i < n; i++ {
+			os.WriteFile(filepath.Join(os.Args[3], fmt.Sprintf("f%05d.mjs", i)), []byte(props.C03ForbiddenFragment(r)+";\n"), 0o644)
+		}
 		return
 	}
 	if os.Args[1] == "rename" {
@@ -36,6 +46,9 @@ func main() {
 	for i := 0; i < n; i++ {
 		r := rand.New(rand.NewSource(int64(i)))
 		o := gen.JSOpts{}
+		if mode == "ctx" {
+			o = gen.JSOpts{CtxNames: true}
+		}
 		if mode == "c04" {
 			o = gen.JSOpts{NoRegex: true, PlainKeys: true, NoClassSelf: true, NoModuleItems: true}
 		}
@@ -56,6 +69,9 @@ func find(args []string) {
 		if len(args) > 1 && args[1] == "nomod" {
 			o = gen.JSOpts{NoModuleItems: true, MaxStmts: 3, NoRegex: true}
 		}
+		if len(args) > 1 && args[1] == "ctx" {
+			o = gen.JSOpts{NoModuleItems: true, MaxStmts: 2, NoRegex: true, CtxNames: true, Budget: 12}
+		}
 		p := gen.JSProgram(rand.New(rand.NewSource(int64(i))), o)
 		src, _ := gen.JSSpell(p, gen.JSStyle{Parens: 0, Semi: 0, WS: 0, Seed: 1})
 		if e := libErr(src); e != "" {
@@ -72,6 +88,9 @@ func find(args []string) {
 			seen[msg]++
 			if seen[msg] <= 2 {
 				fmt.Printf("%d\t%d\t%s\n", i, len(src), msg)
+			}
+			if len(src) < 120 && seen[msg] < 40 {
+				fmt.Printf("    %s\n", src)
 			}
 		}
 	}
